@@ -108,6 +108,18 @@ CHECKS = {
         design_ref="DESIGN.md 5 C13",
         note=NOTE_COMMON + " Azimuthal quantities are rationals in units of pi; the harness multiplies by math.pi when calling.",
     ),
+    "C30": dict(
+        text=("TLC pushes every metadata value tree up to depth 2 (numbers, NumPy scalars incl. float32, strings, booleans, None, "
+              "tuples, lists, dicts, ndarrays; ~2e4 trees) through the transcription of encode_types -> JSON -> decode_types "
+              "(StoreModel.tla) and checks it comes back with the same value (tuple stays tuple), and emits the depth-1 trees; "
+              "these are stored as metadata of real Waves/Images/DiffractionPatterns/PolarMeasurements/RealSpaceLineProfiles/"
+              "PotentialArray objects with 0-2 ensemble axes from 9 axis kinds (float32 values, units=None, private flags...), "
+              "several dtypes, lazy/eager, directory/zip, written with to_zarr and read back with from_zarr; StoreTrace.tla decides "
+              "equality of type, dtype, shape/array, per-axis field trees and the metadata tree by value."),
+        technique="TLA+ codec model (TLC) + spec-generated metadata trees round-tripped through the real zarr IO + TLC trace validation",
+        design_ref="DESIGN.md 5 C30",
+        note=NOTE_COMMON + " Equality is by value (NumPy scalar == equal Python scalar, ndarray == equal list, tuple != list); dict keys named '_type' are outside the grammar.",
+    ),
 }
 
 NOT_APPLICABLE = {
